@@ -26,7 +26,7 @@ ASSUMPTIONS = [
 COMPONENTS = {"real": ["%call/cc stack capture, RESUMECC/sexp_restore_stack", "dynamic-wind / travel-to-point! (init-7.scm)", "SRFI 39 parameterize",
                        "with-exception-handler / raise / guard", "per-thread wind lists", "collector"],
               "stub": ["which task resumes next (tape)", "collection schedule", "slice lengths", "stack size variant"]}
-BUDGET = {"quick": {"seconds": 45, "cases": 20000}, "thorough": {"seconds": 900, "cases": 2000000}}
+BUDGET = {"quick": {"seconds": 45, "cases": 20000, "min_cases": 300}, "thorough": {"seconds": 900, "cases": 2000000}}
 CONFIGS = {
     "sim": {"variant": "sim", "imports": ["(srfi 18)"], "timeout_ms": 60000},
     "tiny": {"variant": "tiny", "imports": ["(srfi 18)"], "timeout_ms": 60000},
